@@ -205,7 +205,7 @@ Definition validb (K : cplx) : bool :=
   forallb (fun p => negb (length (fst p) =? 0)%nat && increasingb (fst p) && facets_okb K p) K && nodupb (map fst K).
 Definition valid (K : cplx) : Prop :=
   forall s f, In (s, f) K -> s <> [] /\
-    forall t, In t (facets s) -> t <> [] -> exists g, lookup K t = Some g /\ g <= f.
+    forall t, In t (facets s) -> t <> [] -> exists g, In (t, g) K /\ g <= f.
 
 (* ------------------------------------------------------------------ persistence bars of a filtered complex *)
 Fixpoint lexleb (a b : list nat) : bool :=
